@@ -23,7 +23,7 @@ META = {
                     "own Web-Mercator tile arithmetic used only for the bounds cross-check (1e-9 deg) and parent boxes"],
     "deciding": ["invariant:tiling", "post:get_index_of", "invariant:refinement"],
 }
-META["added"] = 'Added: special points (antimeridian, limits, beyond +-180) queried one by one, get_bbox clause, tile edges at exactly 0.0 probed within 1 ulp, clusters above threshold inside one maximum-zoom tile. array queries mixing inside and outside points, deep swarms refined to zoom 12-19 with a per-cell area clause. catalogs with events poleward of the Mercator limit. get_cartesian before lookups. zoom 7 and 8 in the quick tier too; from_catalog with magnitude bins and events below the lowest edge.'
+META["added"] = 'Added: threshold 0. special points (antimeridian, limits, beyond +-180) queried one by one, get_bbox clause, tile edges at exactly 0.0 probed within 1 ulp, clusters above threshold inside one maximum-zoom tile. array queries mixing inside and outside points, deep swarms refined to zoom 12-19 with a per-cell area clause. catalogs with events poleward of the Mercator limit. get_cartesian before lookups. zoom 7 and 8 in the quick tier too; from_catalog with magnitude bins and events below the lowest edge.'
 MANIFEST = {
     "technique": "invariants on live QuadtreeGrid2D objects after each constructor (prefix-free quadkeys with dyadic measure 1 in exact integer arithmetic, bounds vs own tile arithmetic, refinement recount of every leaf and internal node, area sum) + post-condition on get_index_of vs brute-force exact containment on boundary-adjacent probes",
     "level_text": "Each constructed grid is checked as an object (tiling by exact dyadic measure, bounds, refinement criterion by recounting events per leaf and per internal node with the same half-open comparisons, cell areas) and every lookup of boundary-adjacent probe points is compared with the unique cell found by exact comparison against the grid's own bounds.",
@@ -411,6 +411,8 @@ def run(ctx):
             kind, thr, zoom = "deepcluster", int(r.choice([1, 2, 5])), int(r.integers(12, 20))
         elif j % 10 == 3:
             kind = "polar"
+        elif j % 10 == 5:
+            thr, zoom = 0, min(zoom, 6)          # threshold 0: every cell that holds an event is refined down to the maximum zoom
         ex_catalog(ctx, kind, thr, zoom, seed=int(r.integers(0, 10 ** 9)))
         if j % 30 == 0:
             ctx.sample({"ctor": "from_catalog", "kind": kind, "threshold": thr, "max_zoom": zoom})
